@@ -15,7 +15,15 @@ def gen_case(seed):
     import random
 
     r = random.Random(seed)
-    kind = r.choice(["convert", "convert", "convert", "align_tensor", "align_term", "align_gauss", "materialize", "align_tensors", "rename_onto"])
+    kind = r.choice(["convert", "convert", "convert", "align_tensor", "align_term", "align_gauss", "materialize", "align_tensors", "rename_onto", "arange"])
+    if kind == "arange":
+        # Tensor.new_arange with 1-4 arguments (also a stop beyond the dtype, an empty tail) against the lazy Slice it materialises
+        nargs = r.randint(1, 4)
+        dtype = r.randint(1, 6)
+        start = r.randint(0, 3)
+        stop = r.randint(0, 8)
+        step = r.randint(1, 3)
+        return dict(kind=kind, nargs=nargs, start=start, stop=stop, step=step, dtype=dtype, name=r.choice(NAMES), as_dtype_kw=r.random() < 0.3)
     if kind == "rename_onto":
         # lazy integer inputs (a Variable or a Slice) substituted for one input while another, unsubstituted input carries
         # the same name: the tensor must materialise the value as an index range (a diagonal); other inputs may be
@@ -242,9 +250,12 @@ class C19(Prop):
         from vf.build import eval_at
 
         names, sizes, eshape, sel = list(case["names"]), list(case["sizes"]), list(case["eshape"]), list(case["align"])
-        x = fill(tuple(sizes + eshape), case["a"], "real")
-        f = Tensor(x, OrderedDict((n, Bint[s]) for n, s in zip(names, sizes)))
+        dt = ["real", "real", 3, 5][case["a"] % 4]  # the output domain (real or bounded integer) must survive the alignment
+        x = fill(tuple(sizes + eshape), case["a"], dt)
+        f = Tensor(x, OrderedDict((n, Bint[s]) for n, s in zip(names, sizes)), dt)
         g = f.align(tuple(sel))
+        if g.output != f.output or g.dtype != f.dtype:
+            raise Violation("align-output-domain", f"align changed the output domain {f.output} -> {g.output}: {self.describe(case)}")
         want_order = sel + [n for n in names if n not in sel]
         if list(g.inputs) != want_order:
             raise Violation("align-order", f"inputs {list(g.inputs)} expected {want_order}: {self.describe(case)}")
@@ -326,6 +337,44 @@ class C19(Prop):
         evaluate_against_oracle(leaf, g, stt, "aligned-gaussian")
         stt.count("completed")
         if want != names:
+            stt.mark_nontrivial(case_hash(case))
+
+    def check_arange(self, case, stt):
+        from funsor import Tensor
+        from funsor.terms import Slice
+
+        nargs, start, stop, step, dtype, name = case["nargs"], case["start"], case["stop"], case["step"], case["dtype"], case["name"]
+        proto = Tensor(np.zeros(1))
+        args = [(stop,), (start, stop), (start, stop, step), (start, stop, step, dtype)][nargs - 1]
+        kw = {}
+        if nargs < 4 and case["as_dtype_kw"]:
+            kw["dtype"] = dtype
+        eff_dtype = dtype if (nargs == 4 or kw) else stop
+        eff_start = start if nargs >= 2 else 0
+        eff_step = step if nargs >= 3 else 1
+        if eff_dtype < 1:
+            raise Decline("empty dtype")
+        want = [v for v in range(eff_start, max(eff_start, stop), eff_step) if v < eff_dtype]
+        if not want:
+            raise Decline("empty range")
+        try:
+            t = proto.new_arange(name, *args, **kw)
+        except Exception as e:
+            raise Decline("new_arange-raised:" + innermost_funsor_frame(e))
+        if list(t.inputs) != [name] or t.inputs[name].size != len(want) or t.dtype != eff_dtype:
+            raise Violation("arange-type", f"new_arange{args}{kw} has inputs {dict(t.inputs)} dtype {t.dtype}; expected {name}: Bint[{len(want)}] -> Bint[{eff_dtype}]: {case}")
+        if [int(v) for v in np.asarray(t.data).reshape(-1)] != want:
+            raise Violation("arange-values", f"new_arange{args}{kw} = {np.asarray(t.data).tolist()} expected {want}: {case}")
+        # the lazy counterpart and its materialisation denote the same function
+        try:
+            sl = Slice(name, eff_start, min(eff_dtype, max(eff_start, stop)), eff_step, eff_dtype)
+            m = proto.materialize(sl)
+        except Exception as e:
+            raise Decline("slice-or-materialize-raised:" + innermost_funsor_frame(e))
+        if dict(m.inputs) != dict(t.inputs) or m.dtype != t.dtype or not np.array_equal(np.asarray(m.data), np.asarray(t.data)):
+            raise Violation("arange-vs-slice", f"new_arange{args}{kw} = {np.asarray(t.data).tolist()} over {dict(t.inputs)} but the materialised Slice is {np.asarray(m.data).tolist()} over {dict(m.inputs)}: {case}")
+        stt.count("completed")
+        if stop > eff_dtype or eff_step > 1:
             stt.mark_nontrivial(case_hash(case))
 
     def check_rename_onto(self, case, stt):
